@@ -60,3 +60,14 @@ Proof. intros b. unfold lf_norm. rewrite scan_lines_is_lines_of. reflexivity. Qe
 Example scan_vs_lines_of_bare_cr :
   scan_lines [97; 13] = [[97]] /\ lines_of [97; 13] = [[97; 13]].
 Proof. split; reflexivity. Qed.
+
+(** Over the two hops SMTP DATA -> store -> POP3 RETR a CR can be lost that is not strictly a
+    line ending: a body line "a CR CR LF" is stored by the C02 codec as "a CR LF" (its line is
+    "a CR", joined with LF), and POP3 reads that CR LF as the line ending and hands out "a".
+    Each hop on its own removes at most the one CR directly before an LF. *)
+Example two_hop_cr_loss :
+  lf_norm [97; 13; 13; 10] = [97; 13; 10] /\
+  pop3_norm [97; 13; 13; 10] = [97; 13; 13; 10] /\
+  pop3_norm (lf_norm [97; 13; 13; 10]) = [97; 13; 10] /\
+  scan_lines (lf_norm [97; 13; 13; 10]) = [[97]].
+Proof. vm_compute. repeat split; reflexivity. Qed.
